@@ -240,6 +240,7 @@ def update_reconciles(ctx):
     ok = len(rt) == 1 and all(c.body is not rt[0].body or ub.block_dominates(rt[0].b, c.b) for c in ins)
     ctx.check(ok, ub.key, 'retain before insert', 'update_msk does not drop the secrets of rights outside the universe (retain) before '
               'adding the new ones', 'retain dominates insert', ub.where())
+    update_visits_every_right(ctx)
     for (api, what) in (('api::Covercrypt::update_msk', 'update'), ('api::Covercrypt::setup', 'setup')):
         body = F.fn(api)
         for c in body.calls(r'primitives::update_msk$'):
@@ -254,6 +255,34 @@ def update_reconciles(ctx):
                     ok = any(r[0] == 'param' and r[1] == mp and r[2][-1:] == ('access_structure',) for r in rs)
             ctx.check(ok, api, 'universe <- access_structure.omega()', '%s does not hand update_msk the universe of rights of the key\'s own '
                       'access structure' % api, 'rights <- msk.access_structure.omega()?', c.where())
+
+
+TRUNCATING = r'^std::iter::Iterator::(take|skip|step_by|take_while|skip_while|map_while|nth|last|find|find_map|position|min|max|min_by_key|max_by_key)$'
+
+
+def update_visits_every_right(ctx):
+    """update_msk gives a secret to EVERY right of the universe the master key does not hold yet: the walk over the universe that
+    leads to `RightSecretKey::random` is not cut short (take(n), skip, take_while, ...) — selecting the rights that are missing
+    (`filter(!contains_key)`) is the only selection. A right left without secret makes key generation, rekey and encapsulation for
+    a freshly added attribute fail although update_msk returned Ok."""
+    from ..trans import chain_source
+    F = ctx.F
+    ub = F.fn('core::primitives::update_msk')
+    n = 0
+    for fb in lib.family_ext(F, ub.key):
+        n += len(fb.calls(r'RightSecretKey::random$'))
+        for c in fb.calls(TRUNCATING):
+            if not c.args:
+                continue
+            src = chain_source(F, fb, c.args[0])
+            if src is None:
+                continue
+            roots = [('param', src[0], ())] if fb.is_param(src[0]) else \
+                lib.copy_chain_sources(fb, {'cp': {'l': src[0], 'p': []}}, through_calls=tuple(IDENTITY_CALLS))
+            if any(r[0] == 'param' and fb is ub and 'HashMap<abe_policy::rights::Right' in fb.local_ty(r[1]) for r in roots):
+                ctx.bad(ub.key, 'universe walked entirely', 'update_msk cuts the walk over the universe of rights short (%s, line %d): some new '
+                        'rights receive no secret, yet the update succeeds' % (c.name.split('::')[-1], c.ln), fb.where(c.ln))
+    ctx.check(n >= 1, ub.key, 'creates secrets', 'update_msk no longer creates secrets (RightSecretKey::random)', '', ub.where())
 
 
 @rule('C03', 'dict-remove-shifts')
@@ -475,3 +504,13 @@ def hierarchy_order_on_the_wire(ctx):
     restricted to Dimension and AccessStructure)."""
     from . import c13
     c13.restricted(ctx, r'(dimension::Dimension|AccessStructure)$', [c13.agree, c13.order])
+
+
+@rule('C03', 'deleted-rights-leave-refreshed-keys', configs=('default', 'p256'))
+def deleted_rights_leave_refreshed_keys(ctx):
+    """'deleting an attribute or a dimension revokes it': after the update, a refreshed user key is rebuilt from the master key —
+    every successful refresh replaces the key's secrets (C05.refresh-always-rebuilds) and without keep-old each right it keeps is
+    paired with what get_latest returns for it, a right the master key no longer holds being dropped (C05.no-keep-old-latest-only)."""
+    from . import c05
+    c05.refresh_always_rebuilds(ctx)
+    c05.no_keep_old_latest_only(ctx)
